@@ -298,6 +298,143 @@ def collect_gap(ctx):
     return names
 
 
+def collect_gap_avg(ctx):
+    """Inter-assembly gap, no-flow and duct-average models: the real Core._noflow_model / Core._duct_average_model are executed
+    symbolically on the gap mesh of real 2- and 3-assembly cores built with that model (the convection look-up is rebuilt by the
+    real Core._make_conv_mask on symbolic perimeters, so the `2 / d_gap` factor of the no-flow model is in the trace).  For every
+    gap cell a theorem: the new temperature is the combination of the adjacent duct-wall and neighbouring gap temperatures with
+    the traced weights, every weight is non-negative and the weights sum to one (a convex combination - the last clause of C04)."""
+    import re
+    from dassh.core import Core
+    from harness.checks import c02
+    from harness.trace import NpProxy
+    rng = random.Random(2100)
+    L = ["-- GENERATED by /verif/harness (C04, inter-assembly gap, no-flow and duct-average models): traced from",
+         "-- dassh.core.Core._noflow_model / _duct_average_model (+ _make_conv_mask).",
+         "import Mathlib.Algebra.Order.Field.Basic", "import Mathlib.Tactic.FieldSimp", "import Mathlib.Tactic.Ring",
+         "import Mathlib.Tactic.Linarith", "import Mathlib.Tactic.Positivity", "import Mathlib.Tactic.NormNum",
+         "import Dassh.Lemmas.Convex", "",
+         "namespace Dassh.Gen.C04GapAvg", "", "variable {K : Type} [Field K] [LinearOrder K] [IsStrictOrderedRing K]", ""]
+    names = []
+    fix = lambda t: re.sub(r"\((\d+) : α\)", r"(\1 : K)", t)
+    for model, meth in (("no_flow", Core._noflow_model), ("duct_average", Core._duct_average_model)):
+        for tag, positions in (("two", [(1, 1), (2, 1)]), ("three", [(1, 1), (2, 1), (2, 2)])):
+            o, core, tr, m, g, td, dz, sym_ok = c02.sym_core(rng, positions, "c04" + model + tag, model=model)
+            n = int(core.n_sc)
+            conds = []
+
+            class NP(NpProxy):
+                def count_nonzero(self, a, axis=None, **kw):
+                    arr = np.asarray(a, dtype=object)
+                    out = np.zeros(arr.shape, dtype=int)
+                    for idx in np.ndindex(arr.shape):
+                        x = arr[idx]
+                        v = x.val if isinstance(x, Sym) else float(x)
+                        if isinstance(x, Sym) and x.op != "const":
+                            conds.append(to_lean(x, short=True))
+                        out[idx] = 1 if v != 0 else 0
+                    return out.sum(axis=axis)
+            try:
+                tnew_all = rebind(meth, tr, {'np': NP(tr)})(o, td)
+            except Exception:
+                import traceback
+                ctx.problem("trace-failed", "c04 gap %s %s" % (model, tag), traceback.format_exc()[-800:])
+                continue
+            short = "nf" if model == "no_flow" else "da"
+            for i in range(n):
+                tnew = tnew_all[i]
+                vs = sorted(used_vars([tnew]))
+                tvars = [v for v in vs if re.match(r"T_\d+$|Td_\d+_\d+$", v)]
+                params = [v for v in vs if v not in tvars]
+                own = "T_%d" % i
+                if own in tvars:
+                    ctx.problem("trace-shape", "c04 gap %s" % model, "cell %d of the %s core depends on its own previous temperature" % (i, tag))
+                    continue
+                if not any(v.startswith("Td_") for v in tvars):
+                    ctx.problem("trace-shape", "c04 gap %s" % model, "cell %d of the %s core sees no duct wall" % (i, tag))
+                    continue
+                tr2 = Trace()
+                ident = lambda v: v
+                t2 = rename(tnew, ident, tr2)
+                ws = []
+                for v in tvars:
+                    mp = {u: 0 for u in tvars}
+                    mp[v] = 1
+                    ws.append(fix(to_lean(substitute(t2, mp, tr2))))
+                ttxt = fix(to_lean(t2))
+                nm = "gap%s_%s_%d" % (short, tag, i)
+                hyps = " ".join("(h_%s : 0 < %s)" % (v, v) for v in params)
+                L.append("/-- %s model, gap cell %d of the traced %s-assembly core: %d duct-wall and %d neighbouring gap temperatures -/"
+                         % (model, i, tag, sum(v.startswith("Td_") for v in tvars), sum(v.startswith("T_") for v in tvars)))
+                L.append("theorem %s (%s : K) %s :\n    %s = %s\n    ∧ (%s)\n    ∧ %s = 1 := by"
+                         % (nm, " ".join(tvars + params), hyps, ttxt,
+                            " + ".join("%s * %s" % (w, v) for w, v in zip(ws, tvars)),
+                            " ∧ ".join("0 ≤ %s" % w for w in ws), " + ".join(ws)))
+                pos = ", ".join("by positivity" for _ in ws)
+                L.append("  refine ⟨by first | (field_simp; ring) | field_simp | ring, %s, by first | (field_simp; ring) | field_simp | norm_num⟩\n"
+                         % (("⟨%s⟩" % pos) if len(ws) > 1 else pos))
+                names.append("Dassh.Gen.C04GapAvg." + nm)
+                # corollary: no new extremum (bounds of the coupled temperatures are kept; a uniform field is reproduced)
+                k = len(ws)
+                if 1 <= k <= 6:
+                    args = " ".join(tvars + params) + " " + " ".join("h_%s" % v for v in params)
+                    L.append("theorem %s_bounds (%s lo hi : K) %s\n    %s :\n    lo ≤ %s ∧ %s ≤ hi := by"
+                             % (nm, " ".join(tvars + params), hyps, " ".join("(b_%s : lo ≤ %s ∧ %s ≤ hi)" % (v, v, v) for v in tvars), ttxt, ttxt))
+                    L.append("  obtain ⟨he, %s, hs⟩ := %s %s" % (("⟨%s⟩" % ", ".join("p%d" % j for j in range(k))) if k > 1 else "p0", nm, args))
+                    L.append("  rw [he]")
+                    L.append("  exact Dassh.Convex.bounds%d %s lo hi %s hs %s\n"
+                             % (k, " ".join("_" for _ in range(2 * k)), " ".join("p%d" % j for j in range(k)), " ".join("b_%s" % v for v in tvars)))
+                    names.append("Dassh.Gen.C04GapAvg." + nm + "_bounds")
+            ctx.count("gap_cells_traced:" + model, n)
+    L.append("end Dassh.Gen.C04GapAvg\n")
+    ctx.gen("C04GapAvg", "\n".join(L))
+    return names
+
+
+def sym_unrodded(model, cls, conv_approx, ftf=(0.11, 0.116)):
+    """symbolic shadow of a real low-fidelity region (shared by C04 and C01): returns (o, tr, reg, n_nodes, dz, q)"""
+    import copy
+    from harness.trace import symarray
+    ftf = list(ftf)
+    reg = cls('ur', 0.0, 1.0, ftf, 0.3, 5.0, du.const_material('cool'), du.const_material('duct', k=25.0), None,
+              convection_factor=0.7)
+    tr = Trace()
+    o = copy.copy(reg)
+    nn = reg.temp['coolant_int'].shape[0]
+    o.temp = {k: v.copy() for k, v in reg.temp.items()}
+    o.temp['coolant_int'] = symarray(tr, 'T', np.full(nn, 650.0))
+    o.temp['duct_mw'] = symarray(tr, 'Tmw', np.full((1, 6), 640.0))
+    o.temp['duct_surf'] = symarray(tr, 'Ts', np.full((1, 2, 6), 645.0))
+
+    class M:
+        pass
+    dm, cm = M(), M()
+    dm.thermal_conductivity = tr.var('kw', 25.0)
+    dm.update = lambda T: None
+    cm.thermal_conductivity = tr.var('k', 60.0)
+    cm.heat_capacity = tr.var('cp', 1270.0)
+    cm.temperature = 650.0
+    o.duct, o.coolant = dm, cm
+    o._update_coolant_params = lambda *a, **k: None
+    o.coolant_params = dict(reg.coolant_params)
+    o.coolant_params['htc'] = tr.var('h', 2.0e4)
+    o.duct_thickness = tr.var('th', reg.duct_thickness)
+    o.duct_perim = tr.var('perim', reg.duct_perim)
+    o.duct_perim_over_6 = o.duct_perim / 6
+    o.flow_rate = tr.var('mdot', 5.0)
+    o._mratio = tr.var('mratio', 0.7)
+    if model == "6node":
+        o._scfr = tr.var('msc', reg._scfr)
+        o._cond = dict(reg._cond)
+        o._cond['const'] = tr.var('cc', float(np.ravel(reg._cond['const'])[0]))
+    o._conv_approx = conv_approx
+    o.ebal = None
+    dz = tr.var('dz', 1e-3)
+    q = tr.var('q', 1.0e4)
+
+    return o, tr, reg, nn, dz, q
+
+
 def collect_unrodded(ctx):
     """Low-fidelity (unrodded) regions: the real SingleNodeHomogeneous / MultiNodeHomogeneous `_calc_coolant_temp` and the real
     region_unrodded.calculate_min_dz are executed symbolically (simple and six-node model, low-flow approximation on/off,
@@ -316,41 +453,7 @@ def collect_unrodded(ctx):
         for conv_approx in (False, True):
             for adiabatic in ((False,) if model == "simple" else (False, True)):
                 tag = "%s_%s%s" % ("simple" if model == "simple" else "six", "ca" if conv_approx else "std", "_adiab" if adiabatic else "")
-                reg = cls('ur', 0.0, 1.0, ftf, 0.3, 5.0, du.const_material('cool'), du.const_material('duct', k=25.0), None,
-                          convection_factor=0.7)
-                tr = Trace()
-                o = copy.copy(reg)
-                nn = reg.temp['coolant_int'].shape[0]
-                o.temp = {k: v.copy() for k, v in reg.temp.items()}
-                o.temp['coolant_int'] = symarray(tr, 'T', np.full(nn, 650.0))
-                o.temp['duct_mw'] = symarray(tr, 'Tmw', np.full((1, 6), 640.0))
-                o.temp['duct_surf'] = symarray(tr, 'Ts', np.full((1, 2, 6), 645.0))
-
-                class M:
-                    pass
-                dm, cm = M(), M()
-                dm.thermal_conductivity = tr.var('kw', 25.0)
-                dm.update = lambda T: None
-                cm.thermal_conductivity = tr.var('k', 60.0)
-                cm.heat_capacity = tr.var('cp', 1270.0)
-                cm.temperature = 650.0
-                o.duct, o.coolant = dm, cm
-                o._update_coolant_params = lambda *a, **k: None
-                o.coolant_params = dict(reg.coolant_params)
-                o.coolant_params['htc'] = tr.var('h', 2.0e4)
-                o.duct_thickness = tr.var('th', reg.duct_thickness)
-                o.duct_perim = tr.var('perim', reg.duct_perim)
-                o.duct_perim_over_6 = o.duct_perim / 6
-                o.flow_rate = tr.var('mdot', 5.0)
-                o._mratio = tr.var('mratio', 0.7)
-                if model == "6node":
-                    o._scfr = tr.var('msc', reg._scfr)
-                    o._cond = dict(reg._cond)
-                    o._cond['const'] = tr.var('cc', float(np.ravel(reg._cond['const'])[0]))
-                o._conv_approx = conv_approx
-                o.ebal = None
-                dz = tr.var('dz', 1e-3)
-                q = tr.var('q', 1.0e4)
+                o, tr, reg, nn, dz, q = sym_unrodded(model, cls, conv_approx)
                 try:
                     dT = rebind(cls._calc_coolant_temp, tr)(o, dz, {'refl': q}, adiabatic, False)
                     lim, code = rebind(UR.calculate_min_dz, tr, {'min': lambda xs: xs[0]})(o, 600.0, 700.0, adiabatic)
@@ -405,6 +508,7 @@ def generate(ctx):
     defs = collect(ctx, random.Random(2000))
     ctx.gen("C04", render(defs))
     collect_gap(ctx)
+    collect_gap_avg(ctx)
     collect_unrodded(ctx)
     return defs
 
@@ -490,13 +594,14 @@ def run(ctx):
         defs = collect(ctx, random.Random(2000))
         ctx.gen("C04", render(defs))
         collect_gap(ctx)
+        collect_gap_avg(ctx)
         collect_unrodded(ctx)
     except Exception:
         import traceback
         ctx.problem("trace-failed", "c04 tracer", traceback.format_exc()[-2000:])
         defs = None
     if defs is not None:
-        ctx.prove("Dassh.Props.C04", also=["Dassh.Gen.C04Gap", "Dassh.Gen.C04Ur"])
+        ctx.prove("Dassh.Props.C04", also=["Dassh.Gen.C04Gap", "Dassh.Gen.C04GapAvg", "Dassh.Gen.C04Ur"])
     oracle_rodded(ctx, rng, 200 if ctx.thorough else 40)
     oracle_unrodded(ctx, rng, 300 if ctx.thorough else 60)
     oracle_core(ctx, rng, 60 if ctx.thorough else 12)
